@@ -879,6 +879,14 @@ func (s *Store) ACLPolicyBatchSet(idx uint64, policies structs.ACLPolicies) erro
 	tx := s.db.WriteTxn(idx)
 	defer tx.Abort()
 
+	// A batch may hand a name over from one policy to another (ACL replication
+	// applies the upserts of a round in ID order). Release the old names of all
+	// policies renamed by this batch first, so that the uniqueness check below
+	// does not depend on the order of the batch.
+	if err := aclPolicyReleaseRenamedTxn(tx, policies); err != nil {
+		return err
+	}
+
 	for _, policy := range policies {
 		if err := aclPolicySetTxn(tx, idx, policy); err != nil {
 			return err
@@ -886,6 +894,38 @@ func (s *Store) ACLPolicyBatchSet(idx uint64, policies structs.ACLPolicies) erro
 	}
 
 	return tx.Commit()
+}
+
+// aclPolicyReleaseRenamedTxn parks every stored policy that the batch renames under a
+// placeholder name that no valid policy name can collide with. The placeholder is
+// overwritten by aclPolicySetTxn later in the same transaction and is never visible
+// outside of it.
+func aclPolicyReleaseRenamedTxn(tx WriteTxn, policies structs.ACLPolicies) error {
+	if len(policies) < 2 {
+		return nil
+	}
+	for _, policy := range policies {
+		if policy.ID == "" {
+			continue
+		}
+		_, raw, err := aclPolicyGetByID(tx, policy.ID, nil)
+		if err != nil {
+			return err
+		}
+		if raw == nil {
+			continue
+		}
+		existing := raw.(*structs.ACLPolicy)
+		if existing.Name == policy.Name {
+			continue
+		}
+		parked := existing.Clone()
+		parked.Name = "\x00renaming:" + existing.ID
+		if err := aclPolicyInsert(tx, parked); err != nil {
+			return err
+		}
+	}
+	return nil
 }
 
 func (s *Store) ACLPolicySet(idx uint64, policy *structs.ACLPolicy) error {
@@ -1109,6 +1149,11 @@ func (s *Store) ACLRoleBatchSet(idx uint64, roles structs.ACLRoles, allowMissing
 	tx := s.db.WriteTxn(idx)
 	defer tx.Abort()
 
+	// See ACLPolicyBatchSet: release the names of roles renamed by this batch first.
+	if err := aclRoleReleaseRenamedTxn(tx, roles); err != nil {
+		return err
+	}
+
 	for _, role := range roles {
 		if err := aclRoleSetTxn(tx, idx, role, allowMissingPolicyIDs); err != nil {
 			return err
@@ -1116,6 +1161,35 @@ func (s *Store) ACLRoleBatchSet(idx uint64, roles structs.ACLRoles, allowMissing
 	}
 
 	return tx.Commit()
+}
+
+// aclRoleReleaseRenamedTxn is aclPolicyReleaseRenamedTxn for roles.
+func aclRoleReleaseRenamedTxn(tx WriteTxn, roles structs.ACLRoles) error {
+	if len(roles) < 2 {
+		return nil
+	}
+	for _, role := range roles {
+		if role.ID == "" {
+			continue
+		}
+		_, raw, err := aclRoleGetByID(tx, role.ID, nil)
+		if err != nil {
+			return err
+		}
+		if raw == nil {
+			continue
+		}
+		existing := raw.(*structs.ACLRole)
+		if existing.Name == role.Name {
+			continue
+		}
+		parked := existing.Clone()
+		parked.Name = "\x00renaming:" + existing.ID
+		if err := aclRoleInsert(tx, parked); err != nil {
+			return err
+		}
+	}
+	return nil
 }
 
 func (s *Store) ACLRoleSet(idx uint64, role *structs.ACLRole) error {
